@@ -459,7 +459,21 @@ func ruleS4(c *Ctx, id string) {
 			}
 		}
 		// ... and answers "empty" only when the scan ran off the end: a free slot does not end it
-		if _, bound := scanBound(c, isEmpty); bound != nil {
+		m := scanModelOf(c, isEmpty)
+		if _, bound := scanBound(c, isEmpty); bound == nil && m != nil {
+			// the slot loop is held by a private iterator, the body is a function literal: explored path by path
+			okB, why, n := m.trueOnlyAtEnd()
+			R.Check(okB && n > 0, id, "dir.IsDirEmpty|empty only at the end of the scan", P.Pos(isEmpty.Pos()), "IsDirEmpty returns true only on paths that left the slot loop through its bound test (offset < size false)", fmt.Sprintf("%d returning paths explored", n), why+": a free slot (entries are removed in place, later ones stay behind it) makes a directory with live entries look empty; RMDIR / RENAME over it orphans them")
+			if m.loop.Fn != isEmpty {
+				var st int64
+				isk := false
+				if sv := m.start(); sv != nil {
+					st, isk = constIntDeep(sv)
+				}
+				adv, nb := m.off.alwaysAdvances()
+				okStart, okStep, nback = isk && st == 2*direntsz, adv, nb
+			}
+		} else if bound != nil {
 			okB, why, n := trueOnlyViaBound(isEmpty, bound)
 			R.Check(okB && n > 0, id, "dir.IsDirEmpty|empty only at the end of the scan", P.Pos(isEmpty.Pos()), "IsDirEmpty returns true only through the scan loop's own bound test (offset < size false)", "constants; true only via the bound test", why+": a free slot (entries are removed in place, later ones stay behind it) makes a directory with live entries look empty; RMDIR / RENAME over it orphans them")
 		} else {
